@@ -110,6 +110,15 @@ impl ast::Visit for Visitor<'_, '_> {
                 }
             },
 
+            // the declared type of a `const` must be the type of its initializer
+            ast::Item::ConstVar { ty_keyword, vars } => {
+                for sp_pat![(var, expr)] in vars {
+                    if let Err(e) = self.check_single_var_decl(*ty_keyword, var, Some(expr)) {
+                        self.errors.set(e);
+                    }
+                }
+            },
+
             _ => ast::walk_item(self, item),
         }
     }
